@@ -365,8 +365,9 @@ impl ChunkDeserializer {
             self.current_header.timestamp.set(timestamp);
         } else if self.current_payload_data.len() == 0 {
             // Since we already added the MAX_INITIAL_TIMESTAMP to the timestamp, only add the delta difference
+            // (a peer may send an extended value below the marker, so this must not underflow)
             self.current_header.timestamp =
-                self.current_header.timestamp + (timestamp - MAX_INITIAL_TIMESTAMP);
+                self.current_header.timestamp + timestamp.wrapping_sub(MAX_INITIAL_TIMESTAMP);
         }
 
         self.current_stage = ParseStage::MessagePayload;
